@@ -421,8 +421,16 @@ pub fn job(
         max_execs,
         initial: Vec::new(),
         on_blocked: Arc::new(|log: Vec<String>| {
-            // default: a thread-blocked execution is recorded, not judged (C16/C17 override this)
+            // default: an execution in which library code blocks its (only) executor thread for ever - a
+            // synchronous wait for a lock that a suspended task, or the caller itself, holds - is a
+            // violation of whatever the scenario was checking: the operation never returns and nothing
+            // else on that socket makes progress (C17 overrides this with a narrower class)
             let mut v = Verdict::default();
+            let last = log.iter().rev().take(3).rev().cloned().collect::<Vec<_>>().join(" | ");
+            v.violate(
+                "thread-blocked-forever",
+                format!("library code blocked the executor thread for ever (synchronous wait for a lock held by a suspended task or by the caller itself); last observations: {}", last),
+            );
             v.outcome_hash = 0x0b10c;
             v.log = log;
             v
